@@ -5,7 +5,7 @@
 // close + reopen) against a nested ordered-map model.  Every call's value or error kind is compared, after every commit
 // the whole contents (keys, values, bucket structure, per-bucket counters) are read back in a fresh transaction and
 // DB::check() must pass; nothing may panic.
-// Bound: 40 seeds x 12 transactions x <= 25 operations, page size 1024, key lengths {1, 3, 40, 300}, value lengths
+// Bound: 40 seeds x 12 transactions x <= 25 operations, page size 1024, key lengths {0, 1, 3, 40, 300, 1100 (longer than a page)}, value lengths
 // {0, 10, 200, 900, 3000}, 12 distinct key ids per length (so that overwrites, KV/bucket name clashes and emptied
 // leaves happen often).  Finding nothing proves nothing.
 #[cfg(test)]
@@ -24,7 +24,7 @@ mod verif_cex_history {
         fn below(&mut self, n: u64) -> u64 { self.next() % n }
     }
     fn key(r: &mut Rng) -> Vec<u8> {
-        let len = [1usize, 3, 40, 300][r.below(4) as usize];
+        let len = [0usize, 1, 3, 40, 300, 1100][r.below(6) as usize];
         let id = r.below(12);
         let mut k = format!("{:02}", id).into_bytes();
         k.truncate(len);
